@@ -20,8 +20,9 @@
      D5  an exception whose args are str ("DELE x") escapes lineReceived with no reply (hard).
      D6  deleted messages are still counted by STAT, listed (size 0) by LIST, listed by UIDL, and LIST n / UIDL n
          succeed for them; only RETR/TOP refuse them.
+     D7  _highest (LAST) survives a re-login; DELE 0 reaches the mailbox as index -1.
      D8  APOP can never succeed: APOPCredentials.checkPassword compares a str hexdigest with the bytes digest.
-     D7  _highest (LAST) survives a re-login; DELE 0 reaches the mailbox as index -1.                              *)
+     D9  a LoginDenied is reported as "Access denied: <class ...LoginDenied>" (tag err:denied is that exact text).  *)
 EXTENDS Naturals, Integers, Sequences, FiniteSets
 
 VARIABLES cfg,    \* [msgs |-> <<[size, hl, bl, tail], ...>>]  hl = header lines incl. the blank one, bl = complete body lines
